@@ -584,6 +584,7 @@ class Oracle:
                 cs.pop("pending_move", None)
                 cs.update(last="BEGIN" if mv == 1 else "END", stable=set(self.db[d].keys()), cur=None)
                 return
+            cs.pop("after_fail", None)
             if "pending_move" in cs:
                 # two moves without a read in between: the oracle does not know the intermediate position
                 cs.update(last=None, stable=None)
@@ -638,6 +639,9 @@ class Oracle:
                 bad("cursor returns a record that is not in the database (deleted or never written): %s" % ks[:80])
                 cs["cur"] = None
                 return
+            was = cs.pop("after_fail", None)
+            if was is not None and not pm and "unknown_set" not in cs and was in self.db[d] and was != lk:
+                bad("after a positioning call that found nothing the cursor reads a record (%s) it was not positioned on" % ks[:60])
             if "unknown_set" in cs:
                 self.db[d][lk] = cs.pop("unknown_set")
             if hexb(self.db[d][lk]) != vs:
@@ -653,6 +657,7 @@ class Oracle:
                 return
             cs = self.cur[c]
             d = cs["db"]
+            cs.pop("after_fail", None)
             lk = cs.get("cur")
             if lk is not None and lk in self.db[d]:
                 if o[0] != "OK":
@@ -667,6 +672,7 @@ class Oracle:
                 return
             cs = self.cur[c]
             d = cs["db"]
+            cs.pop("after_fail", None)
             lk = cs.get("cur")
             if lk is not None and lk in self.db[d]:
                 if o[0] != "OK":
@@ -737,7 +743,13 @@ class Oracle:
             if o[0] != "NOTFOUND":
                 bad("cursor %s on a key with no match must report NOTFOUND" % ("EQ" if mv == 5 else "GE"))
             if not opening and c in self.cur:
+                # a positioning call that found nothing: the cursor is where it was or nowhere - never on a third record
+                was = self.cur[c].get("cur")
                 self.cur[c].update(last=None, stable=None, cur=None)
+                if was is not None and "pending_move" not in self.cur[c]:
+                    self.cur[c]["after_fail"] = was
+                elif "after_fail" in self.cur[c] and "pending_move" in self.cur[c]:
+                    self.cur[c].pop("after_fail")
             return
         if o[0] != "OK":
             bad("cursor %s must position on %s but reported %s" % ("EQ" if mv == 5 else "GE", self.fmt(d, exp)[:60], o[0]))
@@ -1009,7 +1021,7 @@ def clean(lines):
             break
 
 
-def drive(run, profile, nscripts, nops, theorem_pid=None, asan=False, reopen=False, extra_check=None, audit=False, geometry=0, boundary=0, bigfile=0, slack=True, destroy=0, thin=0, uplink=0):
+def drive(run, profile, nscripts, nops, theorem_pid=None, asan=False, reopen=False, extra_check=None, audit=False, geometry=0, boundary=0, bigfile=0, slack=True, destroy=0, thin=0, uplink=0, probe=0):
     """common body of the KV checks"""
     proofs_ok = run.proofs(theorem_pid or run.pid)
     impl = vlib.build_harness("h_kv", "asan" if asan else "plain")
@@ -1046,6 +1058,10 @@ def drive(run, profile, nscripts, nops, theorem_pid=None, asan=False, reopen=Fal
             rng = run.rng.fork()
             ls, meta = thin_script(rng, os.path.join(work, "t%d.db" % n), wal=rng.below(2))
             scripts.append(("thin%d" % n, ls, meta))
+        for n in range(probe or 0):
+            rng = run.rng.fork()
+            ls, meta = probe_script(rng, os.path.join(work, "p%d.db" % n), wal=rng.below(2))
+            scripts.append(("probe%d" % n, ls, meta))
         for n in range(uplink or 0):
             rng = run.rng.fork()
             ls, meta = uplink_script(rng, os.path.join(work, "u%d.db" % n), wal=rng.below(2))
@@ -1329,6 +1345,41 @@ def thin_script(rng, path, wal=0):
         L.append("get 0 %s 0" % hexb(b"k%05d" % i))
     L += ["dump 0", "struct 0", "dump 1", "sync", "close", "open %s %d 0 0 0" % (path, wal), "db 0 1 000", "db 1 2 000", "dump 0", "dump 1", "getmeta 1 10000", "close"]
     return L, {"modes": ["000", "000"], "wal": wal}
+
+
+def probe_script(rng, path, wal=0):
+    """a positioned cursor survives searches that find nothing: many nodes (a search loads a node copy per node it visits,
+    all from the cursor's own ring of block copies), a cursor positioned on a key, then runs of EQ probes for absent keys
+    (and GE probes beyond the last key) through the SAME cursor; the cursor must still read, overwrite, delete and step from
+    the record it was on."""
+    L = ["open %s %d 0 1 0" % (path, wal), "db 0 1 000"]
+    n = rng.choice([300, 700, 1500])
+    for i in range(n):
+        if rng.chance(1, 20):
+            L.append("level %d" % rng.choice([1, 2, 3, 5]))
+        L.append("put 0 %s 0 %s 0 0" % (hexb(b"k%05d" % (2 * i)), hexb(b"v%d" % i)))
+    for rnd in range(rng.choice([2, 4])):
+        at = rng.below(n)
+        L += ["copen 0 0 5 %s 0" % hexb(b"k%05d" % (2 * at)), "cget 0"]
+        for _ in range(rng.choice([3, 8, 20, 60])):
+            if rng.chance(1, 8):
+                L.append("ctokey 0 6 %s 0" % hexb(b"k%05d" % (2 * n + 1 + rng.below(50))))     # GE beyond the greatest key
+            else:
+                L.append("ctokey 0 5 %s 0" % hexb(b"k%05d" % (2 * rng.below(n) + 1)))              # EQ of an absent key
+            if rng.chance(1, 6):
+                L.append("cget 0")
+        how = rng.choice(["cget", "cset", "cdel", "next", "prev"])
+        if how == "cset":
+            L += ["cget 0", "cset 0 %s 0" % hexb(rng.bytes(rng.choice([2, 40]))), "cget 0"]
+        elif how == "cdel":
+            L += ["cget 0", "cdel 0"]
+        elif how in ("next", "prev"):
+            L += ["cget 0", "cto 0 %d" % (3 if how == "next" else 4), "cget 0"]
+        else:
+            L += ["cget 0", "ckey 0", "cval 0"]
+        L.append("cclose 0")
+    L += ["dump 0", "close"]
+    return L, {"modes": ["000"], "wal": wal}
 
 
 def uplink_script(rng, path, wal=0):
